@@ -2,6 +2,7 @@
 from __future__ import annotations
 
 import base64
+import time
 import json
 import zlib
 
@@ -11,6 +12,7 @@ from .. import e1, e2core as E, e3, harness, sym
 from . import base
 
 PROP = "C18"
+SOLVER = {'bounds': 'compressed length m per case (see payload_lengths), all 64^k base64 texts per case; JSON document size symbolic (any integer >= 5); three symbolic JSON characters for encodability'}
 
 B64 = "ABCDEFGHIJKLMNOPQRSTUVWXYZabcdefghijklmnopqrstuvwxyz0123456789+/"
 URLSAFE = set(map(ord, "ABCDEFGHIJKLMNOPQRSTUVWXYZabcdefghijklmnopqrstuvwxyz0123456789-_"))
@@ -345,7 +347,10 @@ def _judge(out, paths, c):
                         small.add(z3.Or(*[v == k for k in sorted(d)]))
                 small.add(f)
                 nq += 1
-                if str(small.check()) == "unsat":
+                _t0 = time.time()
+                _r = str(small.check())
+                out["solver_s"] = out.get("solver_s", 0.0) + time.time() - _t0
+                if _r == "unsat":
                     continue
                 s.push()
                 s.add(f)
@@ -485,6 +490,7 @@ def run(tier: str) -> int:
         inconclusive_paths=gaps,
         document_size="symbolic integer nbytes >= 5 (UTF-8 size of the JSON text): any truncation / size limit on the inflated document is a path",
         queries=sum(r.get("queries", 0) for r in results) + 1,
+        solver_s=round(sum(r.get("solver_s", 0.0) for r in results), 2),
         exhaustive=False,
     )
     return rep.finish()
